@@ -24,15 +24,24 @@ type gen interface {
 
 var genNames = []string{"MT19937", "MT19937_64", "SplitMix64", "Xoshiro256plus", "Xoshiro256plusplus", "Xoshiro256starstar"}
 
+// unseededMT marks the workload variant in which a Mersenne Twister is used
+// straight from its constructor (documented: it then behaves as if seeded with
+// the default seed); a checkpoint taken before the first draw must preserve that.
+const unseededMT = ^uint64(0)
+
 func newGen(kind int, seed uint64) gen {
 	switch kind {
 	case 0:
 		g := prng.NewMT19937()
-		g.Seed(seed)
+		if seed != unseededMT {
+			g.Seed(seed)
+		}
 		return g
 	case 1:
 		g := prng.NewMT19937_64()
-		g.Seed(seed)
+		if seed != unseededMT {
+			g.Seed(seed)
+		}
 		return g
 	case 2:
 		return prng.NewSplitMix64(seed)
@@ -72,9 +81,13 @@ func runPRNG(c *Ctx) *Violation {
 	kind := t.Choose(simrt.KWorkload, len(genNames))
 	seed := uint64(t.Choose(simrt.KValue, 1<<30))<<20 ^ uint64(t.Choose(simrt.KValue, 1<<30))
 	name := genNames[kind]
+	if kind <= 1 && t.Choose(simrt.KWorkload, 4) == 3 {
+		seed = unseededMT
+		c.Probe("unseeded_generator_checkpointed", 1)
+	}
 	c.Instance["generator"] = name
 	c.Instance["seed"] = seed
-	c.Declare("restart_crossed_state_refill", "corrupted_state_accepted")
+	c.Declare("restart_crossed_state_refill", "corrupted_state_accepted", "unseeded_generator_checkpointed")
 	const L = 1300
 	ref := make([]uint64, L+720)
 	g := newGen(kind, seed)
